@@ -222,10 +222,15 @@ def compositeLevels (n d : Nat) : Nat := (n - 1) / (2 * d + 2 ^ d)
 def compositeCount (n d : Nat) : Option Nat :=
   if compositeLevels n d < 1 then none else some (1 + compositeLevels n d * (2 * d + 2 ^ d))
 
-/-- OT_SOBOL_INDICES: `N (d + 2)` or, with second-order indices in dimension > 2, `N (2 d + 2)`. -/
-def sobolBlock (d : Nat) (second : Bool) : Nat := if second && d > 2 then 2 * d + 2 else d + 2
+/-- OT_SOBOL_INDICES.  GEMSEO computes the sub-sample size `N` from `n` (block `2d+2` with
+    second-order indices in dimension > 2, else `d+2`), then `openturns.SobolIndicesExperiment`
+    returns `N (d + 2)` points, or `N (2 d + 2)` with second-order indices in dimension ≠ 2.
+    The two blocks differ for `d = 1` with second-order indices (see `Props/C14`). -/
+def sobolSubSize (n d : Nat) (second : Bool) : Nat :=
+  if second && d > 2 then n / (2 * d + 2) else n / (d + 2)
+def sobolBlock (d : Nat) (second : Bool) : Nat := if second && d != 2 then 2 * d + 2 else d + 2
 def sobolIndicesCount (n d : Nat) (second : Bool) : Option Nat :=
-  if n / sobolBlock d second = 0 then none else some (n / sobolBlock d second * sobolBlock d second)
+  if sobolSubSize n d second = 0 then none else some (sobolSubSize n d second * sobolBlock d second)
 
 /-! ## 5. The unit designs GEMSEO computes itself -/
 
